@@ -492,6 +492,10 @@ func (g *gen) stepRandom() {
 	if focus == "handshake" && g.r.Chance(3, 5) && g.stepHandshake() {
 		return
 	}
+	if focus == "exclusive" && len(g.conns) < 2 && len(g.conns) > 0 && g.r.Chance(1, 2) {
+		g.openConn()
+		return
+	}
 	if len(g.conns) == 0 || (len(g.conns) < 3 && g.r.Chance(1, 25)) {
 		g.openConn()
 		return
@@ -506,6 +510,10 @@ func (g *gen) stepRandom() {
 	if focus == "flow" && g.r.Chance(3, 5) {
 		// the delivery loop: publish, consume, settle, windows, flow, cancel
 		k = []int{200, 200, 200, 480, 480, 700, 700, 700, 810, 845, 570, 600}[g.r.Intn(12)]
+	}
+	if focus == "exclusive" && g.r.Chance(3, 5) {
+		// everything that names a queue: declare (also passive), bind, unbind, purge, delete, consume, get, publish
+		k = []int{10, 10, 10, 130, 180, 200, 200, 480, 480, 600, 600, 890, 920}[g.r.Intn(13)]
 	}
 	if focus == "confirm" && g.r.Chance(3, 5) {
 		// publishes on confirm channels, durable queues, channel reuse
@@ -557,7 +565,12 @@ func (g *gen) stepRandom() {
 	case k < 90: // queue.declare
 		name := g.pick(qnames)
 		pas := g.b(1, 12)
-		g.do(fmt.Sprintf("QD %d %d %s %s %s %s %s %s", c, h, name, g.b(1, 3), g.b(1, 8), g.b(1, 7), pas, g.b(1, 12)))
+		excl := g.b(1, 8)
+		if focus == "exclusive" {
+			excl = g.b(1, 2)
+			pas = g.b(1, 5)
+		}
+		g.do(fmt.Sprintf("QD %d %d %s %s %s %s %s %s", c, h, name, g.b(1, 3), excl, g.b(1, 7), pas, g.b(1, 12)))
 	case k < 120: // exchange.declare
 		ty := []string{"direct", "fanout", "topic", "headers", "direct", "fanout", "topic", "direct", "fanout", "topic", "bogus"}[g.r.Intn(11)]
 		name := g.pick(xnames)
@@ -810,6 +823,9 @@ func genSession(seed uint64, idx int, steps int, kind string, work string, settl
 	}
 	if focus == "handshake" {
 		cfg.Auth = []string{"md5", "bcrypt", "plain"}[r.Intn(3)]
+	}
+	if focus == "exclusive" {
+		qnames = []string{"a", "a.b", "a.b.c", "ab", "a_b"}
 	}
 	enc := json.NewEncoder(os.Stdout)
 	id := fmt.Sprintf("%s-%d-%d", kind, seed, idx)
